@@ -153,7 +153,8 @@ impl Row {
     }
     /// "withdrawals and repayments still work"
     pub fn works_reduce_only(&self) -> bool {
-        matches!(self, Withdraw | WithdrawAll | Repay | RepayAll)
+        // ... also for whoever holds the account in receivership: the bracket that withdraws from / repays into the bank
+        matches!(self, Withdraw | WithdrawAll | Repay | RepayAll | RecvLiab | RecvAsset)
     }
 }
 
@@ -1661,7 +1662,7 @@ pub fn run_world(c: &Case, focus: Option<&CellId>, st: &mut Stats) -> Result<(),
     Ok(())
 }
 
-const RULE: &str = "Worlds are generated by proptest (3 banks: target bank T with a fee-bearing curve, a second bank O, a crashable collateral bank X; generated decimals, SPL / Token-2022 / transfer-fee mints, fixed / Pyth / Switchboard oracles with confidence, weights, program fees, position sizes, borrow fractions, liquidation depth, second-pause offset k, admin-unpause offset u, fee accrual time, order of bank-state vs pause application); worlds are SAMPLED, but inside every world the matrix is ENUMERATED COMPLETELY: 26 rows (deposit, withdraw, withdraw_all, borrow, repay, repay_all, classic liquidation with T as asset bank / as liability bank, handle_bankruptcy, flash-loan bracket [start,borrow,repay_all,end], receivership bracket [start,withdraw,repay,end] with T as repaid / as withdrawn bank, transfer_to_new_account, transfer_to_new_account_pda, collect_bank_fees, withdraw_fees, withdraw_insurance, withdraw_fees_permissionless, withdraw_emissions, withdraw_emissions_permissionless; executed and counted but never asserted (Q1): close_balance, accrue_interest, pulse_health, bare flash-loan and receivership brackets, settle_emissions) x bank state {Operational, Paused, ReduceOnly (both through the admin's configure_bank), KilledByBankruptcy INJECTED into the bank bytes with vm.modify (count in coverage.injected_killed_cells), injected kill + configure_bank(Paused|Operational|ReduceOnly) attempt} x pause column {never; paused+propagated while active (same second, +1 s, +900 s, last second); expired and untouched; expired with the fee state cleared by panic_unpause_permissionless but the group cache stale; extended by a second pause at +k (cached start moved one duration ahead; observed 1 s before the new start, at it, and around the new expiry); extended but the extension not propagated; paused in the fee state but never propagated; propagated then admin-unpaused in the fee state with the cache stale} x time {-1 s, 0 s, +1 s} around the expiry second of the CACHED state. Every cell is a clone of a row-specific prepared state (a depositor without debt, a borrower, liquidatees steered to a generated maintenance deficit, an account made bankrupt by crashing its collateral, accrued and collected fees, an initialised liquidation record, emissions set up on T). Oracle, from the statement: the group is paused iff the cached flag is set and now < cached start + 1800 (read from the account bytes); Paused/Killed bank => the six kinds and every bracket containing one are refused; ReduceOnly => deposit, borrow and the flash bracket refused, withdraw / withdraw_all / repay / repay_all accepted whenever the Operational never-paused reference at the same second accepted them; group paused => every asserted row refused; not paused in the expired / extended / admin-unpaused columns => accepted again whenever the reference accepted, with the cached pause bytes untouched; every refusal leaves the store unchanged; an injected kill survives configure_bank. Not asserted (counted in labels): everything in the unpropagated columns after the cached expiry, bank states the statement is silent about. Separately per world: (a) ReduceOnly valuation clause (in 40 % of the worlds T carries an e-mode tag that O's e-mode entry boosts) - an account whose only collateral is in T cannot borrow 1 / 0.1% / 50% of its former power, the reference model's maintenance health still counts the deposit, and a classic liquidation or start_liquidation of such a healthy-at-maintenance indebted account is refused; (b) REAL wipe-out: a victim borrows 99.5% of T's liquidity, 1-3 years of fee-bearing interest, collateral crashed, handle_bankruptcy without insurance kills the bank; deposit, withdraw, withdraw_all, borrow, repay, repay_all, liquidation with T as liability / asset bank, a second bankruptcy and a receivership bracket must be refused, also after each configure_bank(operational_state) attempt, with the bank still Killed (baseline = the same store with only the state byte put back to Operational). Non-trivial = an asserted cell whose reference (Operational, never paused, same second) succeeded; distinct count by (world, cell). Per row the labels row-reached / expiry-side show that both sides of the expiry second were observed; a row never reached in the whole run is reported as an engine error.";
+const RULE: &str = "Worlds are generated by proptest (3 banks: target bank T with a fee-bearing curve, a second bank O, a crashable collateral bank X; generated decimals, SPL / Token-2022 / transfer-fee mints, fixed / Pyth / Switchboard oracles with confidence, weights, program fees, position sizes, borrow fractions, liquidation depth, second-pause offset k, admin-unpause offset u, fee accrual time, order of bank-state vs pause application); worlds are SAMPLED, but inside every world the matrix is ENUMERATED COMPLETELY: 26 rows (deposit, withdraw, withdraw_all, borrow, repay, repay_all, classic liquidation with T as asset bank / as liability bank, handle_bankruptcy, flash-loan bracket [start,borrow,repay_all,end], receivership bracket [start,withdraw,repay,end] with T as repaid / as withdrawn bank, transfer_to_new_account, transfer_to_new_account_pda, collect_bank_fees, withdraw_fees, withdraw_insurance, withdraw_fees_permissionless, withdraw_emissions, withdraw_emissions_permissionless; executed and counted but never asserted (Q1): close_balance, accrue_interest, pulse_health, bare flash-loan and receivership brackets, settle_emissions) x bank state {Operational, Paused, ReduceOnly (both through the admin's configure_bank), KilledByBankruptcy INJECTED into the bank bytes with vm.modify (count in coverage.injected_killed_cells), injected kill + configure_bank(Paused|Operational|ReduceOnly) attempt} x pause column {never; paused+propagated while active (same second, +1 s, +900 s, last second); expired and untouched; expired with the fee state cleared by panic_unpause_permissionless but the group cache stale; extended by a second pause at +k (cached start moved one duration ahead; observed 1 s before the new start, at it, and around the new expiry); extended but the extension not propagated; paused in the fee state but never propagated; propagated then admin-unpaused in the fee state with the cache stale} x time {-1 s, 0 s, +1 s} around the expiry second of the CACHED state. Every cell is a clone of a row-specific prepared state (a depositor without debt, a borrower, liquidatees steered to a generated maintenance deficit, an account made bankrupt by crashing its collateral, accrued and collected fees, an initialised liquidation record, emissions set up on T). Oracle, from the statement: the group is paused iff the cached flag is set and now < cached start + 1800 (read from the account bytes); Paused/Killed bank => the six kinds and every bracket containing one are refused; ReduceOnly => deposit, borrow and the flash bracket refused, withdraw / withdraw_all / repay / repay_all and the receivership brackets that withdraw from / repay into the bank accepted whenever the Operational never-paused reference at the same second accepted them; group paused => every asserted row refused; not paused in the expired / extended / admin-unpaused columns => accepted again whenever the reference accepted, with the cached pause bytes untouched; every refusal leaves the store unchanged; an injected kill survives configure_bank. Not asserted (counted in labels): everything in the unpropagated columns after the cached expiry, bank states the statement is silent about. Separately per world: (a) ReduceOnly valuation clause (in 40 % of the worlds T carries an e-mode tag that O's e-mode entry boosts) - an account whose only collateral is in T cannot borrow 1 / 0.1% / 50% of its former power, the reference model's maintenance health still counts the deposit, and a classic liquidation or start_liquidation of such a healthy-at-maintenance indebted account is refused; (b) REAL wipe-out: a victim borrows 99.5% of T's liquidity, 1-3 years of fee-bearing interest, collateral crashed, handle_bankruptcy without insurance kills the bank; deposit, withdraw, withdraw_all, borrow, repay, repay_all, liquidation with T as liability / asset bank, a second bankruptcy and a receivership bracket must be refused, also after each configure_bank(operational_state) attempt, with the bank still Killed (baseline = the same store with only the state byte put back to Operational). Non-trivial = an asserted cell whose reference (Operational, never paused, same second) succeeded; distinct count by (world, cell). Per row the labels row-reached / expiry-side show that both sides of the expiry second were observed; a row never reached in the whole run is reported as an engine error.";
 
 fn pack(v: &Viol) -> String {
     format!("{}|{}|{}", v.sig, v.msg.replace('|', "/"), serde_json::to_string(&v.cell).unwrap())
